@@ -278,6 +278,11 @@ class InterpBase:
         f = fr
         while f is not None:
             if name in f.locals:
+                mu = f.__dict__.get("maybe_unbound")
+                if mu and name in mu:
+                    if self.ctx.branch(z3.Bool("unbound!%s" % name), "local may be unbound"):
+                        self.raise_("NameError", self.anchor(node) if node is not None else "unbound:" + name)
+                    mu.discard(name)
                 return f.locals[name]
             f = f.parent
         if fr.fi is None and fr.lexical_class is not None:
